@@ -169,6 +169,11 @@ where
     W: Write + Send,
 {
     fn drop(&mut self) {
+        // a writer that never wrote must still wait for its turn, otherwise the
+        // next writer would be released before the previous ones are finished
+        if let Some(v) = self.trigger.take() {
+            v.recv().ok();
+        }
         self.on_finish.send(()).ok();
     }
 }
